@@ -802,10 +802,14 @@ pub fn run_prop_shared<P: Prop>(p: &P, args: &RunArgs) -> Part {
                             Err(TestError::Fail(_reason, case)) => {
                                 // re-run the minimal case to get its detail
                                 let out = p.check(&case);
-                                let f = out
-                                    .fail
-                                    .or_else(|| first_fail.borrow().clone())
-                                    .unwrap_or(Fail::new("unknown", "failure did not reproduce on re-run"));
+                                let orig = first_fail.borrow().clone();
+                                let f = match (out.fail, orig) {
+                                    // the re-run must show the failure that was shrunk, not another (e.g. a known) one
+                                    (Some(f), Some(o)) if f.key == o.key => f,
+                                    (_, Some(o)) => o,
+                                    (Some(f), None) => f,
+                                    (None, None) => Fail::new("unknown", "failure did not reproduce on re-run"),
+                                };
                                 let path = write_replay(p.id(), &f, &case);
                                 let mut v = violation.lock().unwrap();
                                 if v.is_none() {
@@ -963,6 +967,14 @@ pub fn write_evidence<P: Prop>(p: &P, tier: Tier, seed: u64, parts: &[Part], wal
         let _ = coverage.insert("exhaustively_enumerated_subspaces".into(), json!(subs));
     }
     let _ = coverage.insert("exhaustive".into(), json!(false));
+    // statistics of the coverage-guided campaign that ran just before (thorough tier only)
+    let fuzz_part = root().join("out").join("parts").join(format!("fuzz-{}.json", id));
+    if tier == Tier::Thorough {
+        if let Some(v) = std::fs::read_to_string(&fuzz_part).ok().and_then(|t| serde_json::from_str::<Value>(&t).ok()) {
+            let _ = coverage.insert("fuzz_campaign".into(), v);
+        }
+    }
+    let _ = std::fs::remove_file(&fuzz_part);
     let kf: Vec<String> = parts.iter().flat_map(|x| x.known_finding_lines.clone()).collect();
     let _ = coverage.insert("known_finding_lines".into(), json!(kf));
     let inconclusive: Vec<String> = parts.iter().flat_map(|x| x.inconclusive.clone()).collect();
